@@ -4,6 +4,38 @@ From QCo.Lemmas Require Import Tactics BitsL.
 From QCo.Model Require Import Base Consts DType Codec.
 Open Scope N_scope.
 
+(* ---------------- stride: the Huffman lookup-table stride ---------------- *)
+(* [Codec.stride] is MAX_PREFIX_TABLE_SIZE_LOG of the generated Consts.v.  The lemmas of this
+   section are the ONLY facts about the VALUE of that constant that the development uses; they
+   are proved by computation from the generated constant and fail when it leaves the range
+   for which the properties hold.  Every other lemma holds for any stride within these bounds
+   ([stride] is opaque below).
+   - stride_pos: a stride of 0 bits is the unbounded recursion of
+     build_from_prefixes_recursive.
+   - stride_le_footer: a complete file ends with the footer byte, so 8 real bits follow the
+     last code of the last body; a stride wider than that makes the checked lookup of the last
+     code report InsufficientData on a complete file.
+   - stride_reach: the fuel 33 of Codec.tsearch / Fast.usearch (a model device; the Rust loop
+     has none) must reach the longest code that read_code_at's bounds check lets through, 40
+     bits: 33 strides cover them iff stride >= 2. *)
+Lemma stride_pos : (1 <= stride)%nat.
+Proof. apply Nat.leb_le. vm_compute. reflexivity. Qed.
+
+Lemma stride_le_footer : (stride <= 8)%nat.
+Proof. apply Nat.leb_le. vm_compute. reflexivity. Qed.
+
+Lemma stride_reach : (40 <= stride * 33)%nat.
+Proof. apply Nat.leb_le. vm_compute. reflexivity. Qed.
+
+(* not facts about the value: the two spellings of the constant *)
+Lemma stride_to_nat : N.to_nat Consts.MAX_PREFIX_TABLE_SIZE_LOG = stride.
+Proof. reflexivity. Qed.
+
+Lemma stride_of_nat : N.of_nat stride = Consts.MAX_PREFIX_TABLE_SIZE_LOG.
+Proof. unfold stride. apply N2Nat.id. Qed.
+
+Global Opaque stride.
+
 (* ---------------- small helpers ---------------- *)
 Lemma Nlen_app {A} (a b : list A) : Nlen (a ++ b) = Nlen a + Nlen b.
 Proof. unfold Nlen. rewrite app_length. lia. Qed.
